@@ -156,6 +156,7 @@ pub fn run_crash(case: &Case) -> RunOutput {
     out.ops = ops;
     out.stats = h.stats.clone();
     out.steps = sim.steps();
+    out.sim_micros = sim.inner.final_sim_micros.get();
     out.trace_hash = format!("{:016x}", sim.trace_hash());
     out.harness_error = error;
     let events: Vec<FsEvent> = sim.inner.fs.borrow().log.clone();
